@@ -303,6 +303,8 @@ func Harness_C11_login() {
 	if needCred {
 		globals.authValidators = map[auth.Level][]string{auth.LevelAuth: {"email"}, auth.LevelAnon: {"email"}, auth.LevelRoot: {"email"}}
 	}
+	// the lookup of already validated credentials may fail (store fault): the login fails with it
+	verifCredsLookupFails = needCred && verifNondetBool("credsLookupFails")
 	s.dispatch(w.msg)
 	out := w.collect()
 
@@ -316,6 +318,10 @@ func Harness_C11_login() {
 		}
 	}
 	missingCreds := needCred && o.features&auth.FeatureValidated == 0
+	if missingCreds && verifCredsLookupFails {
+		// whether credentials are missing could not be established
+		verifAssert(w.uid0 != 0 || (s.uid == 0 && s.authLvl == auth.LevelNone), "login-with-unverifiable-credentials-leaves-session-unauthenticated")
+	}
 	shouldLogin := w.ver0 != 0 && w.uid0 == 0 && scheme != "unknown" && o.err == nil &&
 		effState == types.StateOK && o.challenge == nil && !missingCreds && o.features&auth.FeatureNoLogin == 0
 	if w.uid0 != 0 {
